@@ -30,3 +30,53 @@ package trusted
 //@ trusted func io.ReadFull
 //@   ensures count: 0 <= r0 && r0 <= len(buf) && (r1 == nil ==> r0 == len(buf))
 //@   assigns buf
+
+//@ trusted func bytes.Compare
+//@   pure
+//@   ensures range: -1 <= r0 && r0 <= 1
+
+// ---- C17 (con-c17): file system calls used by singleapp / multiapp. Result ranges only (io.Writer / io.ReaderAt /
+// io.Seeker documentation); file contents are not modelled. None of them writes Go memory except the read buffer.
+
+// `short`: an error means a short write (os.File.Write -> internal/poll.FD.Write returns as soon as nn == len(p) with
+// the error of the last syscall, which is nil whenever that syscall wrote bytes). singleapp.flush relies on it: without
+// retryable sync a buffer that was written completely together with an error would stay "full and flushed" forever.
+//@ trusted func (*os.File).Write
+//@   ensures count: 0 <= r0 && r0 <= len(b)
+//@   ensures full: r1 == nil ==> r0 == len(b)
+//@   ensures short: r1 != nil ==> r0 < len(b)
+//@   assigns nothing
+
+//@ trusted func (*os.File).ReadAt
+//@   ensures count: 0 <= r0 && r0 <= len(b)
+//@   ensures full: r1 == nil ==> r0 == len(b)
+//@   assigns b
+
+//@ trusted func (*os.File).Seek
+//@   ensures pos: r1 == nil ==> r0 >= 0
+//@   assigns nothing
+
+//@ trusted func (*os.File).Sync
+//@   assigns nothing
+
+//@ trusted func (*os.File).Close
+//@   assigns nothing
+
+//@ trusted func os.Remove
+//@   assigns nothing
+
+//@ trusted func github.com/codenotary/immudb/embedded/appendable/fileutils.SyncDir
+//@   assigns nothing
+
+//@ trusted func github.com/codenotary/immudb/embedded/appendable/fileutils.Fdatasync
+//@   assigns nothing
+
+//@ trusted func (time.Time).UnixNano
+//@   pure
+
+//@ trusted func (time.Time).Unix
+//@   pure
+
+//@ trusted func (time.Time).Nanosecond
+//@   pure
+//@   ensures range: 0 <= r0 && r0 < 1000000000
